@@ -71,6 +71,11 @@ def t1_t2(repo, res, roots, pid_rule_prefix="", lazy=LAZY_INIT, ctor_ok=CTOR_OK,
                                 f"temporary overwrite of {','.join(t1['attrs'])}",
                                 f"not restored on {len(exits)} exit(s): " + " ; ".join(exits[:6]) + (" ..." if len(exits) > 6 else ""),
                                 getattr(t1["bad"][0][2], "lineno", None), path=g.path_to(parent, fid)))
+            for tmp, rst in t1.get("inexact", []):
+                res.ob(f"T1c:{fname}:{norm(rst)}", False)
+                res.add(Finding(pid_rule_prefix + "T1c", n.mod.rel, fname, rst, f"the restore slices the temporary value built by `{norm(tmp.value)[:60]}`, which does not "
+                                "keep the original entries bit for bit (a normalising constructor such as Rotation.from_quat): the object comes back changed "
+                                "in the last bits", rst.lineno))
             paired |= set(t1["attrs"])
             res.ob(f"T1:{fname}:{','.join(t1['attrs'])}", not t1["bad"],
                    {"rule": "T1", "function": fname, "attrs": t1["attrs"], "exits_examined": t1["exits"],
